@@ -33,7 +33,23 @@ func genCase(t *rapid.T) arith.Case {
 	arith.FillOperands(t, &c)
 	switch c.Op {
 	case "exp":
-		if gen.Pick(t, 12, "bigarg") == 0 { // large arguments (results far from 1, over/underflow)
+		if gen.Pick(t, 10, "mult23") == 0 {
+			// Exp requires |x| <= 23 * (working precision): arguments at that boundary, which
+			// coincides with a context parameter, and a hair above it
+			k := int(c.Ctx.P) + rapid.IntRange(-1, 2).Draw(t, "k23")
+			if k < 1 {
+				k = 1
+			}
+			c.X = core.Dec{Coeff: fmt.Sprint(23 * k), Neg: rapid.Bool().Draw(t, "n23")}
+			switch gen.Pick(t, 3, "hair") {
+			case 1:
+				c.X.Coeff += "000000000000000000001"
+				c.X.Exp = -21
+			case 2:
+				c.X.Coeff += "000"
+				c.X.Exp = -3
+			}
+		} else if gen.Pick(t, 12, "bigarg") == 0 { // large arguments (results far from 1, over/underflow)
 			v := rapid.IntRange(1000, 240000).Draw(t, "big")
 			c.X = core.Dec{Coeff: fmt.Sprint(v) + gen.Digits(t, 6, "tail"), Neg: rapid.Bool().Draw(t, "bneg")}
 			c.X.Exp = -int32(len(c.X.Coeff) - len(fmt.Sprint(v)))
@@ -41,6 +57,19 @@ func genCase(t *rapid.T) arith.Case {
 	case "ln", "log10":
 		if gen.Pick(t, 8, "farexp") == 0 {
 			c.X.Exp += int32(rapid.IntRange(-5000, 5000).Draw(t, "far"))
+		} else if gen.Pick(t, 8, "edge") == 0 {
+			// just outside |x-1| <= 0.1, where Ln switches from its power series to the iteration
+			s := []string{"110", "1100", "11", "89", "899", "90", "150", "15", "149", "1499", "50", "49", "499", "5000"}[gen.Pick(t, 14, "edgek")] + gen.Digits(t, int(c.Ctx.P)+4, "edgetail")
+			c.X = core.Dec{Coeff: s, Exp: int32(-(len(s) - 1))}
+			if s[0] != '1' {
+				c.X.Exp = int32(-len(s))
+			}
+		}
+	case "pow":
+		if gen.Pick(t, 10, "farbase") == 0 && !c.X.Neg {
+			// a base with a large decimal exponent and a fractional exponent: |y ln x| in the thousands
+			c.X.Exp += int32(rapid.IntRange(-9000, 9000).Draw(t, "pfar"))
+			c.Ctx.Emax, c.Ctx.Emin = gen.Limit, -gen.Limit
 		}
 	}
 	return c
@@ -275,8 +304,23 @@ func check(c arith.Case, st *core.Stats) error {
 	mayOverflow := cmpSigned(magHi, maxFiniteMinusUlp) > 0
 	mayUnderflow := cmpSigned(magLo, addUlp(ref.Exact{Num: big.NewInt(1), Den: big.NewInt(1), Exp: int64(c.Ctx.Emin)}, 1, etiny)) < 0
 
+	d25pow := func() bool { // Pow reaches the same limit through its inner Exp of frac(y)*ln|x|
+		if c.Op != "pow" {
+			return false
+		}
+		lnx := (float64(c.X.Exp) + float64(len(c.X.Coeff))) * 2.302585093
+		fy := absF(c.Y)
+		fy -= math.Floor(fy)
+		return math.Abs(fy*lnx) >= 22000 && st.Tolerate("D25")
+	}
 	d25 := func() bool { // known finding: Exp gives up (Overflow/Underflow) for |x| > 23*max(P, ceil(|x|/23)) once |x|/23 >= 1000
+		if d25pow() {
+			return true
+		}
 		return c.Op == "exp" && absF(c.X) >= 22999 && st.Tolerate("D25")
+	}
+	if adjT > gen.Limit-2000 || adjT < -gen.Limit+2000 {
+		limit = true // the true value itself sits at the package exponent limits
 	}
 	if o.Err != nil {
 		if limit || trueOverflows || mayOverflow || mayUnderflow {
